@@ -125,6 +125,9 @@ def main(argv=None):
                     rep = fut.result()
                 except Exception as e:  # noqa: BLE001
                     rep = {"run_seed": None, "harness_error": f"pool: {e!r}", "violations": [], "stats": {}, "event_digest": None, "wall_s": 0, "sample": None}
+                if rep.get("oracle_errors") and not rep.get("harness_error"):
+                    # a crashed oracle is a harness error of its own; what the other oracles found still counts
+                    harness_errors.append({"run_seed": rep.get("run_seed"), "harness_error": "; ".join(rep["oracle_errors"])})
                 if rep.get("harness_error"):
                     harness_errors.append(rep)
                     continue
